@@ -52,6 +52,9 @@ def edge_shapes(tier):
         r.shuffle(order)
         for j, n in enumerate(order):
             st.append(A.edge(v("hub"), v(n)))
+            if j > 0:
+                # the edge looked up last, looked up again right after the edge list has changed
+                st.append(A.attre(v("hub"), v(order[0]), A.attr("after%d" % j, i(j))))
             st.append(A.attre(v("hub"), v(n), A.attr("first", i(j))))
             if j > 0:
                 prev = order[r.randrange(j)]
